@@ -11,8 +11,11 @@ C0 = 3000
 RULE = ("Fixed catalogue of size-indexed families (nested parentheses / sums / function references / subscripts / IF / "
         "IF-ELSE chains / block DO / shared-label DO / label-DO with CONTINUE / non-block DO distinct and shared "
         "terminals / SELECT CASE / WHERE / ASSOCIATE / BLOCK; n repeated statements, loops, units, actual arguments, "
-        "operand chains per operator level) at sizes n and 2n, plus generated families: a drawn nest recipe (sequence of "
-        "construct kinds, innermost statement, sibling statements per level) instantiated at depth n and 2n. Measure: "
+        "operand chains per operator level, I/O / array-constructor / DATA implied-DO nests with one or several items per "
+        "level) at sizes n and 2n, plus generated families: a drawn nest recipe (sequence of construct kinds, innermost "
+        "statement, sibling statements per level), a drawn expression-wrapper recipe, a drawn sibling recipe or a drawn "
+        "recipe of io-implied-do levels (items before/after the nested list, with/without stride) instantiated at depth "
+        "n and 2n. Measure: "
         "deterministic count of Base.__new__ calls after create(). Oracle: c(2n) <= 4*c(n) + 3000 (degree 2, one factor "
         "of n of slack over the linear growth every well-behaved family shows); a parse aborted at 5e6 constructions "
         "counts as exceeding it. Non-trivial = instance with n >= 8.")
@@ -93,6 +96,10 @@ FAMILIES = {
     "component_chain": lambda n: _prog(["x = " + "%".join("c%d(i)" % i for i in range(n))]),
     "format_groups": lambda n: _prog(["10 format(" + "2(" * n + "i2" + ")" * n + ")"]),
     "nested_derived_type_params": lambda n: _prog(["type(t(" * 1 + ", ".join("k%d = %d" % (i, i) for i in range(n)) + ")) :: x"]),
+    "io_implied_do_items": lambda n: _prog(["write(6, *) " + "(" * n + "a(i1)" + "".join(", b(i%d), i%d = 1, 2)" % (i, i) for i in range(n))]),
+    "io_implied_do_items_first": lambda n: _prog(["read(5, *) " + "(b(i), " * n + "a(i1)" + "".join(", i%d = 1, 2)" % i for i in range(n))]),
+    "ac_implied_do_nest": lambda n: _prog(["x = [" + "(" * n + "a(i1)" + "".join(", b, i%d = 1, 2)" % i for i in range(n)) + "]"]),
+    "data_implied_do_nest": lambda n: _prog(["data " + "(" * n + "a(" + ", ".join("i%d" % i for i in range(n)) + ")" + "".join(", i%d = 1, 2)" % i for i in range(n)) + " / %d * 0 /" % 2 ** n]),
     "io_implied_do_nest": lambda n: _prog(["write(6, *) " + "(" * n + "a(i)" + "".join(", i%d = 1, 2)" % i for i in range(n))]),
 }
 F08_FAMILIES = {"nested_block", "repeat_block_critical"}
@@ -112,8 +119,13 @@ INNER = ["x = 1", "call sub(a, b)", "x = f(a) + (b * c)", "if (a) x = 1", "print
 
 # every wrapper yields a primary (it is parenthesised itself), so any composition is standard-conforming
 EXPR_WRAPS = ["(-(%s))", "(-%s)", "((%s))", "(%s + b)", "(a * %s)", "(.inv. %s)", "(.not. %s)", "[%s]", "(/ %s /)",
-              "(%s ** 2)", "(s // %s)", "(%s .and. l)", "(a == %s)", "(+%s - 1)", "(-a * %s)", "(1.0 * (%s))",
+              "(%s ** 2)", "(s // %s)", "[(%s, k = 1, 2)]", "(/ (%s, b, k = 1, 2) /)", "[(b, %s, k = 1, 2, 1)]", "(%s .and. l)", "(a == %s)", "(+%s - 1)", "(-a * %s)", "(1.0 * (%s))",
               "(-(-%s))" if False else "(- %s + 1)"]
+
+# io-implied-do levels (R917) with further items before/after the nested list, with and without a stride
+IO_WRAPS = ["(%s, i%(i)d = 1, 2)", "(%s, b(i%(i)d), i%(i)d = 1, 2)", "(b(i%(i)d), %s, i%(i)d = 1, 2)",
+            "(%s, i%(i)d = 1, 6, 2)", "(c, %s, d(i%(i)d), i%(i)d = 1, n)", "(%s, b(i%(i)d), i%(i)d = 1, 4, 2)"]
+IO_STMTS = ["write(6, *) %s", "print *, %s", "read(5, *) %s", "write(unit = 6, fmt = '(i2)') x, %s, y", "print '(i2)', %s"]
 
 SIB_KINDS = {
     "nonblock_do": ["do %(l)d i = 1, 2", "%(l)d x%(i)d = i"],
@@ -132,6 +144,11 @@ def family_source(case, n):
         e = case["innermost"]
         for i in range(n):
             e = case["recipe"][i % len(case["recipe"])] % e
+        return _prog([case["stmt"] % e])
+    if case["family"] == "generated_io":
+        e = case["innermost"]
+        for i in range(n):
+            e = case["recipe"][i % len(case["recipe"])].replace("%s", e).replace("%(i)d", str(i + 1))
         return _prog([case["stmt"] % e])
     if case["family"] == "generated_siblings":
         lines = []
@@ -184,6 +201,10 @@ def build(rnd, tier, flags):
         return {"family": "generated_expr", "recipe": recipe, "innermost": r.pick(["a", "arr(i)", "1.0e-3", "x%y"]),
                 "stmt": r.pick(["x = %s", "if (l) x = %s", "call sub(%s, 1)", "print *, %s", "x = arr(%s)"]),
                 "n": r.pick(sizes(tier)), "std": r.pick(["f2003", "f2008"])}
+    if r.chance(20):
+        recipe = [r.pick(IO_WRAPS) for _ in range(r.n(1, 3))]
+        return {"family": "generated_io", "recipe": recipe, "innermost": r.pick(["a(i1)", "a(i1, i2)", "x"]),
+                "stmt": r.pick(IO_STMTS), "n": r.pick(sizes(tier)), "std": r.pick(["f2003", "f2008"])}
     if r.chance(50):
         ks = sorted(SIB_KINDS)
         recipe = []
@@ -233,7 +254,7 @@ def shard_extra():
 def evaluate(case):
     n = case["n"]
     fam = case["family"]
-    name = fam if not fam.startswith("generated") else {"generated": "gen:", "generated_siblings": "sib:",
+    name = fam if not fam.startswith("generated") else {"generated": "gen:", "generated_siblings": "sib:", "generated_io": "io:",
                                                          "generated_expr": "expr:"}[fam] + "-".join(case["recipe"])
     labels = ["family=" + (fam if not fam.startswith("generated") else fam), "n=%d" % n, "std=" + case["std"]]
     s1, c1 = count(family_source(case, n), case["std"])
